@@ -195,7 +195,10 @@ class Interp:
                 self.exec_fn(self.fn, env, 0)
             except _Return as r:
                 ret = r.v
-            outcomes.append((self.acc, ret, self.events) if getattr(self, "with_events", False) else (self.acc, ret))
+            if getattr(self, "with_heap", False):
+                outcomes.append((self.acc, ret, self.events, self.heap))
+            else:
+                outcomes.append((self.acc, ret, self.events) if getattr(self, "with_events", False) else (self.acc, ret))
             for d in self.new_forks:
                 pending.append(d)
         return outcomes
@@ -748,6 +751,7 @@ class Interp:
         if name is None:
             return U
         if name in self.hooks:
+            self.cur_env = env          # lets a hook model an out-parameter (`&local`) of the hooked callee
             return self.hooks[name](self, e, args)
         if name in ("memcpy", "memmove", "__builtin_memcpy", "__builtin_memmove", "__memcpy_chk"):
             n = args[2] if len(args) > 2 else U
